@@ -125,6 +125,7 @@ func (d *driver) traces() {
 					}
 					ct, v := fresh(lv[0])
 					snap, _ := ct.MarshalBinary()
+					wasNTT := ct.IsNTT
 					o := ct
 					if !inplace {
 						o = rlwe.NewCiphertext(p, 1, lv[1])
@@ -145,7 +146,7 @@ func (d *driver) traces() {
 						min = lv[1]
 					}
 					d.emit(ev{"ev": "trace", "scheme": ts.name, "op": fmt.Sprintf("lgn=%d", logN), "logn": p.LogN(), "lgn": logN, "ci": ci, "v": v, "out": res,
-						"inplace": inplace, "lvlin": lv[0], "lvlrecv": lv[1], "lvlout": o.Level(), "lvlmin": min, "nttok": o.IsNTT == ct.IsNTT || inplace,
+						"inplace": inplace, "lvlin": lv[0], "lvlrecv": lv[1], "lvlout": o.Level(), "lvlmin": min, "nttok": o.IsNTT == wasNTT, // the result is in the domain of the input, in place as well
 						"inok": inok, "adv": uniq(ks.GetGaloisKeysList()), "req": uniq(ks.req), "err": err != nil, "panic": pan, "cons": cons, "msg": msg})
 				}
 			}
